@@ -27,8 +27,10 @@ class TrafficFilterConfig:
 
 @dataclass
 class FailSafeConfig:
-    cooldown_time: int = load_env_value(_ENV_FAIL_SAFE_ENTER_AFTER, int, 10)
-    max_errors: int = load_env_value(_ENV_FAIL_SAFE_EXIT_COOLDOWN_SEC, int, 5)
+    # NOTE: FailSafe.__init__ uses its `cooldown_time` argument as the number of attempts and
+    # `max_errors_allowed` as the cooldown seconds, the defaults follow that meaning (5 attempts, 10 sec).
+    cooldown_time: int = load_env_value(_ENV_FAIL_SAFE_ENTER_AFTER, int, 5)
+    max_errors: int = load_env_value(_ENV_FAIL_SAFE_EXIT_COOLDOWN_SEC, int, 10)
 
 
 @dataclass
